@@ -7,6 +7,8 @@ use super::{
     Hinting, Outline,
 };
 
+pub use super::hint::verif_hooks::hint_arith;
+
 /// The counts of an [`Outline`] that determine its memory requirements.
 #[derive(Copy, Clone, Debug, Default, PartialEq, Eq)]
 pub struct OutlineCounts {
